@@ -46,6 +46,12 @@ type Engine struct {
 	engineObls       []*Obligation
 	driverRuns       []DriverRun
 	reassignCache    map[string]bool
+	initOnlyKeys     map[string]bool
+	monotoneKeys     map[string]bool
+	initOnlyObls     []*Obligation
+	havocGen         int
+	evKinds          map[string]int
+	loopAnyHavoc     bool
 	trustedUsed      map[string]bool
 	slessUsed        bool
 	allFuncs         map[*ssa.Function]bool
@@ -81,7 +87,7 @@ func NewEngine(repo string, patterns []string) (*Engine, error) {
 		typeCache: map[string]types.Type{}, pkgFilePos: map[string][]token.Pos{}, extraPkgs: map[string]*types.Package{},
 		loopCache: map[*ssa.Function]map[*ssa.BasicBlock]*loopInfo{}, trivial: map[string]int{},
 		extraAssumptions: map[string][]string{}, extraCoverage: map[string]map[string]interface{}{},
-		protoContract: map[*ssa.Function]*Contract{}, reassignCache: map[string]bool{},
+		protoContract: map[*ssa.Function]*Contract{}, reassignCache: map[string]bool{}, evKinds: map[string]int{},
 		trustedUsed: map[string]bool{}, globalInit: map[string]globalInitInfo{},
 	}
 	for _, p := range pkgs {
